@@ -44,8 +44,13 @@ impl MacroExprHelper<'_> {
         self.helper.next_expr_for(self.id, expr)
     }
 
+    /// The position of `id`, or of the macro call itself when `id` has no offset
+    /// (the placeholder left by an argument that already failed to expand).
     pub(crate) fn pos_for(&self, id: u64) -> Option<(isize, isize)> {
-        self.helper.source_info.pos_for(id)
+        self.helper
+            .source_info
+            .pos_for(id)
+            .or_else(|| self.helper.source_info.pos_for(self.id))
     }
 }
 
